@@ -207,7 +207,8 @@ type rwTaskRec struct {
 	deliveries []rwDelivery
 	// inClosedWindow: handed to the proxy while the owning target's dying sender was parked with its delivery channel
 	// closed (so it cannot have been queued on that incarnation)
-	inClosedWindow bool
+	inClosedWindow  bool
+	ownerIncsAtEmit int // number of incarnations the owning target had had when this copy reached the proxy
 }
 
 type rwDelivery struct {
@@ -662,6 +663,7 @@ func (w *rwWorld) emit(o rwOp) {
 		}
 		rec := &rwTaskRec{src: s.idx, id: id, marker: marker, target: j, original: proto.Clone(task).(*replicationv1.ReplicationTask), srcInc: len(s.incs) - 1, msgIndex: len(s.sentMsgs)}
 		rec.inClosedWindow = w.windowTarget == j && w.windowParked()
+		rec.ownerIncsAtEmit = len(w.targets[j].incs)
 		w.byMarker[marker] = rec
 		s.allTasks = append(s.allTasks, rec)
 		recs = append(recs, rec)
@@ -911,7 +913,16 @@ func (w *rwWorld) classifyPair(s *rwSource, a rwSourceAck, id int64) string {
 			continue
 		}
 		owner = r.target
-		closedWindow = closedWindow || r.inClosedWindow
+		if r.inClosedWindow {
+			// ... unless a later incarnation of the owner ended as well: the task may have been queued on that one
+			later := false
+			for k, inc := range w.targets[r.target].incs {
+				if k >= r.ownerIncsAtEmit && inc.ended {
+					later = true
+				}
+			}
+			closedWindow = closedWindow || !later
+		}
 		for _, d := range r.deliveries {
 			delivered = true
 			t := w.targets[d.target]
